@@ -155,7 +155,11 @@ def api_update(res, rng, metric):
             if step % 2 == 0:
                 idx.query(X[:3], k=3)
         U, _ = api.gen_dataset(rng, metric, "dense32", int(rng.choice([1, 10, 40])), dim)
-        idx.update(xs_fresh=U)
+        if step % 2 == 1 or rng.integers(3) == 0:
+            # row numbers without replacement rows are documented to be ignored (a warning): still an append-only update
+            idx.update(xs_fresh=U, updated_indices=[int(v) for v in rng.integers(0, rows, 4)])
+        else:
+            idx.update(xs_fresh=U)
         i1, d1 = idx.neighbor_graph
         res.case(("update", metric, n, k, prep, step, np.asarray(L).tobytes(), U.tobytes()), True,
                  sample={**case, "appended": int(U.shape[0]), "row0_before": [float(v) for v in d0[0]], "row0_after": [float(v) for v in d1[0]]})
@@ -190,6 +194,7 @@ def run(res, tier, seed, search):
     # the normalising metric has its own glue in the constructor (the seeds must be measured on the data the descent runs on)
     for r in range(2 if tier == "quick" else 6):
         api_init_graph(res, rng, "dot", "dense32", wide=(r == 0))
+    api_init_graph(res, rng, "minkowski", "csr")          # metric arguments must reach the seeding of a CSR index too
     api_good_init(res, rng, "euclidean")
     if tier != "quick":
         api_good_init(res, rng, "manhattan")
